@@ -10,7 +10,8 @@ for id in $ids; do
   [ -f "$p" ] || continue
   if ! git -C /repo apply --check "$PWD/$p" 2>/dev/null; then echo "$id: PATCH DOES NOT APPLY"; continue; fi
   git -C /repo apply "$PWD/$p"
-  out=$(./check $id quick 2>&1); rc=$?
+  prop=$(echo $id | cut -c1-3)
+  out=$(./check $prop quick 2>&1); rc=$?
   git -C /repo checkout -- . 
   if [ $rc -eq 1 ]; then
     echo "$id: CAUGHT   $(echo "$out" | grep -c '^VIOLATION') violation(s): $(echo "$out" | grep '^VIOLATION' | sed -e 's/.*obligation=//' | head -3 | tr '\n' ' ')"
